@@ -61,14 +61,19 @@ package gzip
 //@   ensures[C10 hdr-first] z.err == nil ==> z.wroteHeader
 //@   ensures old(z.wroteHeader) ==> z.wroteHeader
 
+// calls of the deflate writer's Flush made by Flush itself (raised by the `counts` clause below)
+//@ ghost global compFlushCalls int
+
 //@ func (*Writer).Flush
 //@   requires gzOK(z)
-//@   modifies *z, **z.compressor, **z.w, extWrites, lastCrc, lastWriteErr, lastAfter, lastTimeUnix, unixCalls, lastUnixSec, lastStdResetDictNil, lastByteErr
+//@   modifies *z, **z.compressor, **z.w, compFlushCalls, extWrites, lastCrc, lastWriteErr, lastAfter, lastTimeUnix, unixCalls, lastUnixSec, lastStdResetDictNil, lastByteErr
 //@   ensures[C16 inv] gzOK(z)
 //@   ensures[C14 C16 sticky-in] old(z.err) != nil ==> result == old(z.err) && extWrites == old(extWrites) && same(z.err)
 //@   ensures[C14 sticky-out] result != nil ==> z.err == result
 //@   ensures[C16 closed] old(z.closed) && old(z.err) == nil ==> result == nil && extWrites == old(extWrites)
 //@   ensures[C10 hdr-first] result == nil && !old(z.closed) ==> z.wroteHeader
+//@   counts call Flush as compFlushCalls
+//@   ensures[C09 C10 flush-reaches-compressor] result == nil && !old(z.closed) ==> compFlushCalls == old(compFlushCalls) + 1
 
 //@ func (*Writer).Close
 //@   requires gzOK(z)
